@@ -1391,6 +1391,24 @@ def c09_bound(ctx):
         ctx.check(not any(d in forbidden for d in deps), c, "pre_dispatch bound does not depend on the input length",
                   "pre_dispatch bound depends on %s" % sorted(d for d in deps if d in forbidden))
         ctx.check("eval_expr()" in deps or "int()" in deps, c, "pre_dispatch bound is int(eval_expr(pre_dispatch with n_jobs substituted)) or the integer given")
+        # whether the look-ahead wrapper is installed at all may depend on the size of the input only if that size is exact
+        # (len of a sized container): a hint that under-estimates would hand the whole iterator to the dispatcher
+        gcall_ = cfg_of(call)
+        sized = [t for (_, t, pol) in gcall_.atoms_at(gcall_.nodes_of(c)) if any(d in ("self.n_tasks", "n_tasks") or d.startswith("iterable") for d in attrs_in(t)) or "len(" in unparse(t)]
+        if sized:
+            nt = [a for fn_ in _par_methods(ctx) for a in nodes_of_type(fn_, ast.Assign) if "self.n_tasks" in stores_to(a)]
+            def exact(v):
+                if isinstance(v, ast.IfExp):
+                    return exact(v.body) and exact(v.orelse)
+                return is_const(v, None) or (isinstance(v, ast.Call) and call_name(v) == "len" and len(v.args) == 1)
+            ctx.check(bool(nt) and all(exact(a.value) for a in nt), c, "the look-ahead wrapper is skipped only on the exact length of a sized input",
+                      "whether the input is wrapped in the pre_dispatch look-ahead depends on `%s`, and n_tasks is not an exact length (%s): an input that under-reports its size is consumed completely up front"
+                      % (unparse(sized[0], 60), ", ".join(unparse(a.value, 50) for a in nt)))
+        # ... of THIS call: apart from the user's setting, nothing the instance remembers from an earlier call may flow in
+        state = sorted(d for d in deps if d.startswith("self.") and not d.endswith("()") and d not in ("self.pre_dispatch", "self._pre_dispatch_amount")
+                       and not (d + "()") in deps)
+        ctx.check(not state, c, "the pre_dispatch amount is computed from this call's n_jobs and the user's setting only",
+                  "the pre_dispatch amount depends on %s, instance state that survives from one call to the next: after n_jobs changed, the look-ahead of an earlier call is used" % state)
     # a fractional amount ('1.5*n_jobs') is truncated, never rounded up: the look-ahead may not exceed the bound
     for a in nodes_of_type(call, ast.Assign):
         if "self._pre_dispatch_amount" in stores_to(a) and not (isinstance(a.value, ast.Constant) and isinstance(a.value.value, int)):
